@@ -34,41 +34,40 @@ func Harness_C23_chunk_bounds() {
 	v.Reach("C23.chunk.end")
 }
 
-// invalidation: a sorted list of invalidated seconds is reduced to the distinct starts of the chunks
-// containing them (every second is covered by a listed chunk, no chunk is listed twice)
+func C23Now() time.Time { return time.Unix(1_700_000_000, 0) }
+
+// cache2.invalidate (the real function) on a 1 s shard holding one bucket with eight consecutive one-minute
+// chunks: 1..3 sorted invalidated seconds with gaps of 0..130 s (so consecutive seconds fall into the
+// same chunk, the next chunk - its first second included - or further) mark exactly the chunks that
+// contain an invalidated second; every other chunk keeps its stamp.
 func Harness_C23_invalidate_dedup() {
 	c := &cache2{}
-	sh := &cache2Shard{cache: c, step: time.Second, chunkDuration: time.Minute, chunkSize: 60}
+	sh := &cache2Shard{cache: c, step: time.Second, chunkDuration: time.Minute, chunkSize: 60, bucketM: map[string]*cache2Bucket{}, bucketL: newCache2BucketList()}
+	c.shards = map[time.Duration]*cache2Shard{time.Second: sh}
 	n := 1 + v.Choice(3)
-	base := v.NondetIntRange(1_000_000_000, 2_000_000_000)
+	base := 1_700_000_000 + v.NondetIntRange(0, 59) // any position inside a minute
 	times := make([]int64, n)
 	cur := base
 	for k := range times {
 		cur += v.NondetIntRange(0, 130)
 		times[k] = cur
 	}
-	// the dedup loop of cache2.invalidate, run on the real chunk functions
-	t := times[0] * int64(time.Second)
-	start := c.chunkStart(sh, t)
-	end := c.chunkEnd(sh, start)
-	s := []int64{start}
-	for i := 1; i < len(times); i++ {
-		t = times[i] * int64(time.Second)
-		if end <= t {
-			start = c.chunkStart(sh, t)
-			end = c.chunkEnd(sh, start)
-			s = append(s, start)
-		}
+	first := c.chunkStart(sh, base*int64(time.Second))
+	b := &cache2Bucket{key: "k"}
+	for k := int64(0); k < 8; k++ {
+		st := first + k*int64(time.Minute)
+		b.times = append(b.times, st)
+		b.chunks = append(b.chunks, &cache2Chunk{start: st, end: st + int64(time.Minute)})
 	}
-	for _, sec := range times {
-		covered := false
-		for _, st := range s {
-			covered = v.Or(covered, v.And(st <= sec*int64(time.Second), sec*int64(time.Second) < st+int64(time.Minute)))
+	sh.bucketM["k"] = b
+	sh.bucketL.add(b)
+	c.invalidate(times, 1)
+	for _, ch := range b.chunks {
+		hit := false
+		for _, sec := range times {
+			hit = v.Or(hit, v.And(ch.start <= sec*int64(time.Second), sec*int64(time.Second) < ch.end))
 		}
-		v.Assert("C23.invalidate.every_second_covered", covered)
-	}
-	for i := 1; i < len(s); i++ {
-		v.Assert("C23.invalidate.chunk_starts_strictly_increase", s[i-1] < s[i])
+		v.Assert("C23.invalidate.chunk_stamped_iff_it_contains_an_invalidated_second", v.Or(v.And(hit, ch.invalidatedAt != 0), v.And(!hit, ch.invalidatedAt == 0)))
 	}
 	v.Reach("C23.invalidate.end")
 }
